@@ -38,7 +38,7 @@ from ngo.utils.ast import (
     potentially_unifying_sequence,
     predicates,
 )
-from ngo.utils.globals import PREV, UniqueNames
+from ngo.utils.globals import PREV, UniqueNames, UniqueVariables
 
 log = logging.getLogger(__name__)
 
@@ -205,7 +205,10 @@ class SumAggregator:
                 return False
         return True
 
-    def _replace_elements(self, elements: list[AST], prg: list[AST], outside: Optional[set[AST]] = None) -> list[AST]:
+    def _replace_elements(
+        self, elements: list[AST], prg: list[AST], outside: Optional[set[AST]] = None, prev: AST = PREV
+    ) -> list[AST]:
+        # prev: the variable for the predecessor in the chain, not used in the statement
         newelements = []
         for elem in elements:
             assert elem.ast_type == ASTType.BodyAggregateElement
@@ -250,17 +253,17 @@ class SumAggregator:
                     Literal(
                         LOC,
                         Sign.NoSign,
-                        SymbolicAtom(Function(LOC, next_anotated_pred.name, var_global_flat + [PREV, var_l], False)),
+                        SymbolicAtom(Function(LOC, next_anotated_pred.name, var_global_flat + [prev, var_l], False)),
                     )
                 )
                 new_terms = list(elem.terms)
-                new_terms[0] = BinaryOperation(LOC, BinaryOperator.Minus, elem.terms[0], PREV)
+                new_terms[0] = BinaryOperation(LOC, BinaryOperator.Minus, elem.terms[0], prev)
                 var_global_flat_without_anon = [
                     Function(LOC, "none", [], False) if x.ast_type == ASTType.Variable and x.name == "_" else x
                     for x in var_global_flat
                 ]
                 new_terms.append(
-                    Function(LOC, next_anotated_pred.name, var_global_flat_without_anon + [PREV, var_l], False)
+                    Function(LOC, next_anotated_pred.name, var_global_flat_without_anon + [prev, var_l], False)
                 )
                 newelements.append(elem.update(condition=new_condition, terms=new_terms))
                 new_condition = list(old_condition)
@@ -322,6 +325,7 @@ class SumAggregator:
         if trigger is None:
             return [minimize]
         trigger_lit, trigger_index, trigger_anon_pred = trigger
+        prev = UniqueVariables(minimize).make_unique(PREV)
         log.info(f"Replace {trigger_anon_pred.pred.name}/{trigger_anon_pred.pred.arity} inside an objective function.")
 
         old_condition = minimize.body
@@ -350,19 +354,19 @@ class SumAggregator:
             Literal(
                 LOC,
                 Sign.NoSign,
-                SymbolicAtom(Function(LOC, next_anotated_pred.name, var_global_flat + [PREV, var_l], False)),
+                SymbolicAtom(Function(LOC, next_anotated_pred.name, var_global_flat + [prev, var_l], False)),
             )
         )
         # new_terms = list(elem.terms)
         # new_terms[0] = BinaryOperation(LOC, BinaryOperator.Minus, elem.terms[0], PREV)
-        weight = BinaryOperation(LOC, BinaryOperator.Minus, minimize_var, PREV)
+        weight = BinaryOperation(LOC, BinaryOperator.Minus, minimize_var, prev)
         if minimize.weight.ast_type != ASTType.Variable:
             weight = UnaryOperation(LOC, UnaryOperator.Minus, weight)
         terms: list[AST] = list(minimize.terms)
         var_global_flat_without_anon = [
             Function(LOC, "none", [], False) if x.ast_type == ASTType.Variable and x.name == "_" else x for x in var_global_flat
         ]
-        terms.append(Function(LOC, next_anotated_pred.name, var_global_flat_without_anon + [PREV, var_l], False))
+        terms.append(Function(LOC, next_anotated_pred.name, var_global_flat_without_anon + [prev, var_l], False))
         prg.append(minimize.update(weight=weight, terms=terms, body=new_condition))
         new_condition = list(old_condition)
         new_condition.append(
@@ -388,13 +392,14 @@ class SumAggregator:
         for stm in prg:
             if stm.ast_type in (ASTType.Rule, ASTType.Minimize):
                 newbody = []
+                prev = UniqueVariables(stm).make_unique(PREV)
                 for blit in stm.body:
                     if blit.ast_type == ASTType.Literal:
                         atom = blit.atom
                         # not #sum+: it ignores a negative first value of a chain but counts the differences to it
                         if atom.ast_type == ASTType.BodyAggregate and atom.function == AggregateFunction.Sum:
                             outside = set(collect_ast(stm.update(body=[x for x in stm.body if x != blit]), "Variable"))
-                            newatom = atom.update(elements=self._replace_elements(atom.elements, ret, outside))
+                            newatom = atom.update(elements=self._replace_elements(atom.elements, ret, outside, prev))
                             newbody.append(blit.update(atom=newatom))
                         else:
                             newbody.append(blit)
